@@ -38,6 +38,12 @@ pub struct C19Case {
     /// through the top-level set_save_interval (true)
     pub via_setter: bool,
     pub initial: Option<usize>,
+    /// train sims only: after the interval is in force, the consist is replaced through the
+    /// public field by an equal one that saves every step (what `Consist::default()` and most
+    /// files carry), without propagating the interval again: the train's own gate must keep
+    /// the nested histories aligned (and empty when saving is disabled)
+    #[serde(default)]
+    pub swap_consist: bool,
 }
 
 fn build_u19(u: &U19, si: Option<usize>) -> anyhow::Result<Locomotive> {
@@ -194,7 +200,9 @@ impl C19 {
                 }
             }
         }
-        C19Case { kind, units, pdct: g.int(0, 1) as u8, trace, train, interval, via_setter, initial }
+        let pdct = g.int(0, 1) as u8;
+        let swap_consist = kind >= 2 && g.bool(0.15);
+        C19Case { kind, units, pdct, trace, train, interval, via_setter, initial, swap_consist }
     }
 
     fn check(case: &C19Case, cx: &mut Ctx) {
@@ -244,6 +252,9 @@ impl C19 {
                     if case.via_setter {
                         sim.set_save_interval(case.interval);
                     }
+                    if case.swap_consist {
+                        sim.loco_con = tc.train.build_consist(Some(1))?;
+                    }
                     let r = sim.walk();
                     Ok((serde_json::to_value(&sim)?, sim.state.i as u64, r.is_ok()))
                 }
@@ -259,6 +270,9 @@ impl C19 {
                     let mut sim = tsb.make_speed_limit_train_sim(&lm, construct_iv, None, None)?;
                     if case.via_setter {
                         sim.set_save_interval(case.interval);
+                    }
+                    if case.swap_consist {
+                        sim.loco_con = tc.train.build_consist(Some(1))?;
                     }
                     if case.pdct == 1 && n >= 2 {
                         // timed-path walk: link k becomes available at a generated time
@@ -320,7 +334,13 @@ impl C19 {
             cx.fail("C19|ragged|history-columns-differ-in-length", r.clone());
         }
         // every nested save_interval equals the one in force
+        cx.label_if(case.swap_consist, "consist_replaced_without_propagating_the_interval");
         for (p, iv) in &t.intervals {
+            // a consist swapped in afterwards keeps its own setting: only the histories are
+            // held to the statement there
+            if case.swap_consist && p.contains("loco_con") {
+                continue;
+            }
             if *iv != case.interval.map(|x| x as u64) {
                 cx.fail(format!("C19|interval|not-propagated:{}", kind_of(p)), format!("{p} = {iv:?} but the interval in force is {:?} (construction {:?}, setter {})", case.interval, construct_iv, case.via_setter));
             }
